@@ -39,7 +39,11 @@ func CalculateCodeAge(messages []CommitMessage) []ProjectInfo {
 	}
 
 	sort.Slice(agesArray, func(i, j int) bool {
-		return agesArray[i].Age.Before(agesArray[j].Age)
+		// oldest first; entities of one age by name, so that a cut of the list keeps the same ones on every run
+		if !agesArray[i].Age.Equal(agesArray[j].Age) {
+			return agesArray[i].Age.Before(agesArray[j].Age)
+		}
+		return agesArray[i].EntityName < agesArray[j].EntityName
 	})
 
 	return agesArray
@@ -55,7 +59,10 @@ func GetTeamSummary(messages []CommitMessage) []TeamSummary {
 	}
 
 	sort.Slice(sortInfos, func(i, j int) bool {
-		return sortInfos[i].RevsCount > sortInfos[j].RevsCount
+		if sortInfos[i].RevsCount != sortInfos[j].RevsCount {
+			return sortInfos[i].RevsCount > sortInfos[j].RevsCount
+		}
+		return sortInfos[i].EntityName < sortInfos[j].EntityName
 	})
 
 	return sortInfos
@@ -206,7 +213,10 @@ func GetTopAuthors(commitMessages []CommitMessage) []TopAuthor {
 	}
 
 	sort.Slice(topAuthors, func(i, j int) bool {
-		return topAuthors[i].CommitCount > topAuthors[j].CommitCount
+		if topAuthors[i].CommitCount != topAuthors[j].CommitCount {
+			return topAuthors[i].CommitCount > topAuthors[j].CommitCount
+		}
+		return topAuthors[i].Name < topAuthors[j].Name
 	})
 
 	return topAuthors
